@@ -108,8 +108,13 @@ func runFault(sc *scn.Scenario, em func(vt.Ev), mode string, k int64, baseline *
 	sink := &vt.Sink{}
 	series := run.SeriesOf(sc, sc.Data)
 	dist := sc.CfgInt("dist", 0) == 1
-	honour := mode == "cancel" || mode == "block" || mode == "cancelcall" || mode == "closecall" || strings.HasPrefix(mode, "gate")
+	honour := mode == "cancel" || mode == "block" || mode == "cancelcall" || mode == "closecall" || mode == "deadline" || strings.HasPrefix(mode, "gate")
 	ctx, cancel := context.WithCancel(context.Background())
+	if mode == "deadline" {
+		// the context given to Exec times out k microseconds from now (ctx.Err() = DeadlineExceeded)
+		cancel()
+		ctx, cancel = context.WithTimeout(context.Background(), time.Duration(k)*time.Microsecond)
+	}
 	defer cancel()
 	mk := func(ss []vstore.Series, idbase int64) *vstore.Store {
 		st := vstore.New(ss)
@@ -145,7 +150,7 @@ func runFault(sc *scn.Scenario, em func(vt.Ev), mode string, k int64, baseline *
 	for i, st := range all {
 		snaps[i] = st.Snapshot()
 	}
-	if mode != "none" && mode != "cancelcall" && mode != "closecall" && !isGate {
+	if mode != "none" && mode != "cancelcall" && mode != "closecall" && mode != "deadline" && !isGate {
 		main.Inj = &vstore.Inject{K: k, Kind: mode, Cancel: cancel}
 	}
 	// scheduling points (hook H2): count them; in mode "gate:<point>" cancel the context when the
@@ -233,7 +238,7 @@ func runFault(sc *scn.Scenario, em func(vt.Ev), mode string, k int64, baseline *
 		}
 	}
 	inj := main.Inj
-	firedNow := mode == "cancelcall" || mode == "closecall"
+	firedNow := mode == "cancelcall" || mode == "closecall" || mode == "deadline"
 	if inj != nil && inj.Fired == 1 {
 		firedNow = true
 		sink.Emit(vt.Ev{"ev": "fired", "at": inj.At})
@@ -241,6 +246,8 @@ func runFault(sc *scn.Scenario, em func(vt.Ev), mode string, k int64, baseline *
 		sink.Emit(vt.Ev{"ev": "fired", "at": "Cancel()"})
 	} else if mode == "closecall" {
 		sink.Emit(vt.Ev{"ev": "fired", "at": "Close()"})
+	} else if mode == "deadline" {
+		sink.Emit(vt.Ev{"ev": "fired", "at": "deadline"})
 	} else if isGate {
 		pmu.Lock()
 		gf := gateFired
@@ -276,8 +283,8 @@ func runFault(sc *scn.Scenario, em func(vt.Ev), mode string, k int64, baseline *
 	if isGate {
 		rmode = "cancel" // for the specification a gate is a cancellation at a scheduling point
 	}
-	if mode == "closecall" {
-		rmode = "cancelcall" // Close() from another goroutine cancels like Cancel() does
+	if mode == "closecall" || mode == "deadline" {
+		rmode = "cancelcall" // Close() from another goroutine, or a deadline, cancels like Cancel() does
 	}
 	em(vt.Ev{"ev": "run", "mode": rmode, "k": k})
 	evs := sink.Drain()
@@ -397,6 +404,9 @@ func famFault(sc *scn.Scenario, em func(vt.Ev)) {
 				runFault(sc, em, mode, r.Int63n(span), base)
 				if i%4 == 0 {
 					runFault(sc, em, "closecall", r.Int63n(span), base)
+				}
+				if i%4 == 1 {
+					runFault(sc, em, "deadline", 1+r.Int63n(span), base)
 				}
 			}
 			continue
